@@ -359,6 +359,28 @@ theorem C15_auto_stage (g : G) (msg : String) (tb : Option String) (hookOk : Boo
   · intro p hp; rw [addState_index]; simp [hp]
   · intro p hp; rw [addState_index]; simp [hp]
 
+/-! ## `--from-ref` -/
+
+/-- **C15, `--from-ref`.**  `git_checkout_ref` (patched): for every state in the fragment and every
+    ref name — existing or not — such that the paths on which the requested ref differs from HEAD
+    carry no user change, the checkout never leaves the fragment; the stash list, the commits and
+    all refs are unchanged; HEAD is the requested branch (or the old one when the ref does not
+    exist, in which case an error is returned AFTER the stash was popped); and on every path where
+    the two trees agree the index entry and the work-tree file are what they were: staged changes
+    stay staged, unstaged and untracked files stay as they were. -/
+theorem C15_from_ref (g : G) (r : String) (hm : NoMixed g)
+    (hfree : ∀ p, (targetTree g r).find? p ≠ g.headTree.find? p →
+      g.index.find? p = g.headTree.find? p ∧ g.wt.find? p = g.headTree.find? p) :
+    (gitCheckoutRef g r).status ≠ .outside ∧
+    (gitCheckoutRef g r).g.stash = g.stash ∧ (gitCheckoutRef g r).g.commits = g.commits ∧
+    (gitCheckoutRef g r).g.refs = g.refs ∧
+    ((gitCheckoutRef g r).g.head = g.head ∨ (gitCheckoutRef g r).g.head = .branch r) ∧
+    (lookupRef g.refs r = none → (gitCheckoutRef g r).g.head = g.head ∧ (gitCheckoutRef g r).status = .gitError) ∧
+    ∀ p, (targetTree g r).find? p = g.headTree.find? p →
+      (gitCheckoutRef g r).g.index.find? p = g.index.find? p ∧
+      (gitCheckoutRef g r).g.wt.find? p = g.wt.find? p :=
+  checkoutRef_facts g r hm hfree
+
 /-! ## non-vacuity: a concrete, busy user state inside the fragment -/
 
 /-- HEAD tree of the example: four user files, xvc's files -/
@@ -433,6 +455,21 @@ def exReadonly : G := { exState with wt := [(["t.txt"], "t1-edited"), (["m.txt"]
 example : NoMixed exReadonly := (noMixedB_iff _).mp (by decide)
 example : (gitAdd isXvcPath exReadonly).2 = [] := by decide
 
+/-- `--from-ref` on the busy state: a second commit `1` (one more user file `side.txt`) on branch
+    `side`; the hypothesis of `C15_from_ref` holds, the checkout succeeds and the staged work survives -/
+def exTwoRefs : G :=
+  { exState with commits := [⟨exHead, none, "root"⟩, ⟨(["side.txt"], "s") :: exHead, some 0, "side"⟩],
+                 refs := [("main", 0), ("side", 1)] }
+example :
+    let o := gitCheckoutRef exTwoRefs "side"
+    o.status = .ok ∧ o.g.head = .branch "side" ∧ o.g.wt.find? ["side.txt"] = some "s" ∧
+    o.g.index.find? ["new.txt"] = some "n1" ∧ o.g.index.find? ["del.txt"] = none ∧
+    o.g.wt.find? ["t.txt"] = some "t1-edited" ∧ o.g.stash = exTwoRefs.stash := by decide
+example :
+    let o := gitCheckoutRef exTwoRefs "nosuchref"
+    o.status = .gitError ∧ o.g.head = .branch "main" ∧ o.g.index.find? ["new.txt"] = some "n1" ∧
+    o.g.wt.find? ["new.txt"] = some "n1" ∧ o.g.stash = exTwoRefs.stash := by decide
+
 /-! ## the code before the patches: concrete counterexamples (replayed on the real binary by
     `lib/c15.py`, corpus cases 0–4 and 6–8) -/
 
@@ -493,6 +530,8 @@ open Git in
 #print axioms C15_command
 open Git in
 #print axioms C15_command_readonly
+open Git in
+#print axioms C15_from_ref
 open Git in
 #print axioms C15_no_git
 open Git in
